@@ -311,6 +311,74 @@ def rule_cost(chk, prog):
         (r.bad if bad else r.ok)("%s/segment-penalty" % kind_name, fn.where(), bad or "classes %s" % sorted(seen_k))
 
 
+def rule_angle_exact(chk, prog):
+    """cost() charges a bend when angleBetween() != pi exactly... so `straight` must come out exact for exactly collinear points."""
+    r = chk.rule("ANGLE-FROM-CROSS-DOT", "angleBetween(p1, p2, p3), symbolic: the angle is |atan2(cross, dot)| of the two vectors leaving p2 -- ONE "
+                 "inverse tangent whose first argument is the cross product (x1-x2)(y3-y2)-(y1-y2)(x3-x2) and whose second is the dot product: "
+                 "for exactly collinear points the cross product is exactly 0 and the angle exactly 0 or pi, so a straight pass through a "
+                 "shape corner is never charged a bend; an angle formed as the difference of two separately rounded headings is not", floor=1)
+    fn = prog.fn("Avoid::angleBetween")
+    seen = []
+
+    def h_atan2(it, n, env):
+        a = call_args(n)
+        seen.append((to_poly(it.ev(a[0], env)), to_poly(it.ev(a[1], env))))
+        return Poly.var("ATAN2")
+    v = {k: Poly.var(k) for k in ("x1", "y1", "x2", "y2", "x3", "y3")}
+    P = lambda a, b: Obj("Avoid::Point", {"x": v[a], "y": v[b], "id": 0, "vn": 8})
+    hooks = {"atan2": h_atan2, "std::atan2": h_atan2}
+
+    def run(o):
+        it = Interp(prog, o, hooks=hooks)
+        try:
+            return ("ret", it.call(fn, None, None, None, arg_values=[P("x1", "y1"), P("x2", "y2"), P("x3", "y3")]))
+        except AssertFail as e:
+            return ("assert", str(e))
+    try:
+        rows = enumerate_paths(run, limit=200)
+    except Unsupported as e:
+        raise AnalysisBroken("angleBetween outside the interpreter subset: %s" % e)
+    cross = (v["x1"] - v["x2"]) * (v["y3"] - v["y2"]) - (v["y1"] - v["y2"]) * (v["x3"] - v["x2"])
+    dot = (v["x1"] - v["x2"]) * (v["x3"] - v["x2"]) + (v["y1"] - v["y2"]) * (v["y3"] - v["y2"])
+    r.count()
+    pairs = {(str(a), str(b)) for a, b in seen}
+    ok = bool(seen) and all((a == to_poly(cross) or a == to_poly(cross) * -1) and b == to_poly(dot) for a, b in seen)
+    (r.ok if ok else r.bad)("angleBetween", fn.where(), "atan2(cross, dot) on %d path(s)" % len(rows) if ok else
+                            "the angle is not computed as atan2(cross product, dot product): inverse tangents taken of %s -- exactly collinear points "
+                            "no longer give exactly 0 / pi" % sorted(pairs))
+
+
+def rule_sweep_candidates(chk, prog):
+    """Which vertices the rotational sweep from a vertex looks at: a pair that is never looked at never gets its edge (re)built."""
+    from ..rules.guards import path_condition, atoms, entails
+    r = chk.rule("SWEEP-CANDIDATES", "vertexSweep's candidate list: a vertex `inf` (other than the centre, orthogonal dummies and the sides of shapes "
+                 "containing a connector end) is swept iff it is a shape vertex, or the centre is a shape vertex, or one of the two is a "
+                 "connection pin, or both are end points / checkpoints of the SAME connector -- exactly that and nothing narrower: the direct "
+                 "source-target edge of a connector is rebuilt by the sweep of whichever end moved", floor=1)
+    fn = prog.fn("Avoid::vertexSweep")
+    ins = [c for c in calls(fn) if "::insert" in str(c.get("cname", "")) and call_object(c) is not None and norm(call_object(c)) == "v"]
+    if len(ins) < 3:
+        raise AnalysisBroken("vertexSweep: candidate insertions not found")
+    pcs = [path_condition(fn, c, inline=False) for c in ins]
+    got = pcs[0]
+    for pc in pcs[1:]:
+        got = ("or", got, pc)
+    A = lambda s_: ("atom", s_)
+    want = ("and", A("(inf != endVert)"),
+            ("or", ("not", A("inf.id.isConnPt()")),
+             ("or", ("not", A("centerID.isConnPt()")),
+              ("or", A("inf.id.isConnectionPin()"), ("or", A("centerID.isConnectionPin()"), A("(inf.id.objID == centerID.objID)"))))))
+    r.count()
+    extra = atoms(got) - atoms(want)
+    if extra:
+        r.bad("candidate condition", fn.loc(ins[0]), "the candidate test depends on %s, which the sweep's contract does not mention" % sorted(extra))
+    elif not (entails(want, got) and entails(got, want)):
+        r.bad("candidate condition", fn.loc(ins[0]), "the union of the conditions under which a vertex is added to the sweep is not the reviewed one "
+              "(shape vertex | centre is a shape vertex | either is a pin | same connector)")
+    else:
+        r.ok("candidate condition", fn.loc(ins[0]), "%d insertion sites" % len(ins))
+
+
 def rule_edge_length(chk, prog):
     r = chk.rule("EDGE-LENGTH", "EdgeInf::getDist returns the stored m_dist; EdgeInf::setDist stores its argument; checkVis passes "
                  "euclideanDist(v1.point, v2.point)", floor=2)
@@ -491,6 +559,8 @@ def run(chk):
     chk.guard(rule_node_order, chk, prog)
     chk.guard(rule_cost, chk, prog)
     chk.guard(rule_edge_length, chk, prog)
+    chk.guard(rule_angle_exact, chk, prog)
+    chk.guard(rule_sweep_candidates, chk, prog)
     chk.guard(rule_missing_edges, chk, prog)
     from .c16 import rule_shape_blocking
     chk.guard(rule_shape_blocking, chk, prog, ("square",))      # which segments a convex obstacle blocks
